@@ -327,3 +327,75 @@ Theorem C11_page_walk_by_class_refuted_nonblank_title_byte :
         map (fun i => i + 1) (filter (visible names) (if asc then zseq 0 (length names) else rev (zseq 0 (length names))))).
 Proof. exact page_walk_class_refuted_nonblank_title_byte. Qed.
 Print Assumptions C11_page_walk_by_class_refuted_nonblank_title_byte.
+
+(* ------------------------------------------------------------------------------------------------ field width of the cursor *)
+(* the by-name next-cursor made from any visible board resolves to exactly that board, in both directions: for every
+   sorted table of byte strings whose names are distinct up to case — names of every length up to the full width of the
+   BoardID_t field (12 characters, 13 bytes without a NUL) included, sharing prefixes of any length or not *)
+Theorem C11_cursor_resolves_by_name : forall names asc,
+  forallb bytes_ok names = true -> sorted_by less_name names = true -> distinct_names names = true ->
+  forall i, 0 <= i < lenZ names -> visible names i = true ->
+    find_by_name names (nth (Z.to_nat i) names []) asc = Ok (i + 1).
+Proof. exact cursor_resolves. Qed.
+Print Assumptions C11_cursor_resolves_by_name.
+
+(* the cursor is CstrToString(Brdname) copied back into a BoardID_t ([boardid] = copy into the 13-byte field, [cprefix] =
+   the C string in it): for EVERY name the C string in the field is unchanged by the round trip, so the search key of
+   the cursor is the key the board was sorted with; a copy clipped at 11 bytes is not (ex_clip11, Proofs/C11.v) *)
+Theorem C11_cursor_field_roundtrip : forall nm, cprefix (boardid (cprefix (boardid nm))) = cprefix (boardid nm).
+Proof. exact cursor_field_roundtrip. Qed.
+Print Assumptions C11_cursor_field_roundtrip.
+
+(* ------------------------------------------------------------------------------------------------ histories of the board cache *)
+(* Vocabulary (Model/C11.v): a state [s] has the board file [bfile s] (absent, or its complete records: [records b] of a
+   byte string b drops an incomplete tail; [file_recs s] = [] when absent), the table [btbl s] = BCache[0..BNumber), the
+   flag [bbusy s] = BBusyState and the two indexes [bsn s], [bsc s] (BSorted + 1). [fresh] = start-up, no file.
+   A history is a list of [OInstall b] (a board file with bytes b is put in place, ReloadBCache), [OReload]
+   (ReloadBCache on whatever file there is — none in the fresh state: the read fails, the early return releases the
+   flag), [OCreate r] (cmsys.AppendRecord of the record r + cache.AddbrdTouchCache = BNumber++, ResetBoard, SortBCache;
+   ResetBoard refuses and SortBCache does nothing while the flag is set). [run_hist srt ops fresh = Some s]: no creation
+   of the history was refused. [srt] stands for the two sort.Sort calls; [sorter_ok srt] = each returns a permutation of
+   the bids that puts the table in order (the assumption made on sort.Sort everywhere in this file).
+   [tnames s] = the names of the table in bid order, [snames s] = in the order of the by-name index.
+
+   After ANY history from the fresh state — the absent file, the empty file, files with an incomplete last record, any
+   number of reloads and creations in any order — the flag is released, the table is the board file (every created
+   board is in it), the by-name index is a sorted permutation of the table, GetBid of a name in any letter case is the
+   bid of a board with that name (0 iff none) and FindBoardIdxByName is the exact entry or the scan. *)
+Theorem C11_lookups_after_any_history : forall srt ops s,
+  sorter_ok srt -> Forall op_ok ops -> run_hist srt ops fresh = Some s ->
+  bbusy s = 0 /\ btbl s = firstn (Z.to_nat MAXB) (file_recs s) /\
+  (forall q, bytes_ok q = true -> exists b, get_bid (snames s) (bsn s) q = Ok b /\
+     ((1 <= b <= lenZ (tnames s) /\ cstrcasecmp (boardid q) (boardid (nth (Z.to_nat (b - 1)) (tnames s) [])) = 0) \/
+      (b = 0 /\ forall j, 0 <= j < lenZ (tnames s) -> cstrcasecmp (boardid q) (boardid (nth (Z.to_nat j) (tnames s) [])) <> 0))) /\
+  (forall q asc, bytes_ok q = true -> exists r, find_by_name (snames s) q asc = Ok r /\
+     ((1 <= r <= lenZ (snames s) /\ cmp_name (snames s) q (r - 1) = 0) \/ scan (cmp_name (snames s) q) (lenZ (snames s)) asc = Ok r)) /\
+  Permutation.Permutation (tnames s) (snames s) /\ sorted_by less_name (snames s) = true.
+Proof. exact history_lookups. Qed.
+Print Assumptions C11_lookups_after_any_history.
+
+(* ... and by class, when the fifth title byte of every board is a blank (what mNewbrd writes) or a NUL (vacated slot):
+   [ctitles s] / [cnames s] = Title[:5] / name in the order of the by-class index *)
+Theorem C11_lookups_by_class_after_any_history : forall srt ops s,
+  sorter_ok srt -> Forall op_ok ops -> run_hist srt ops fresh = Some s ->
+  Forall (fun r => nth 4 (rec_title5 r) 0 = 32 \/ nth 4 (rec_title5 r) 0 = 0) (btbl s) ->
+  forall cls q asc, bytes_ok cls = true -> bytes_ok q = true ->
+  exists r, find_by_class (ctitles s) (cnames s) cls q asc = Ok r /\
+    ((1 <= r <= lenZ (cnames s) /\ cmp_class (ctitles s) (cnames s) cls q (r - 1) = 0) \/
+     scan (cmp_class (ctitles s) (cnames s) cls q) (lenZ (cnames s)) asc = Ok r).
+Proof. exact history_lookups_class. Qed.
+Print Assumptions C11_lookups_by_class_after_any_history.
+
+(* no creation is refused after any such history while there is room for a board (MAXB = MAX_BOARD): in particular
+   the first creation after ReloadBCache found no board file *)
+Theorem C11_creation_not_refused_after_any_history : forall srt ops s r,
+  sorter_ok srt -> Forall op_ok ops -> run_hist srt ops fresh = Some s ->
+  Z.of_nat (length (btbl s)) < MAXB -> exists s', create srt r s = Some s'.
+Proof. exact history_creation_not_refused. Qed.
+Print Assumptions C11_creation_not_refused_after_any_history.
+
+(* the hypothesis on the sorter is not empty: the insertion sort the executable model runs ([isorter], the one the
+   harness compares with sort.Sort on twin-free tables) is such a sorter *)
+Theorem C11_insertion_sort_is_a_sorter : sorter_ok isorter.
+Proof. exact isorter_ok. Qed.
+Print Assumptions C11_insertion_sort_is_a_sorter.
